@@ -13,6 +13,7 @@ import (
 	"time"
 
 	"github.com/nuetzliches/hookaido/internal/queue"
+	"github.com/nuetzliches/hookaido/internal/verifhook"
 )
 
 const (
@@ -88,6 +89,7 @@ func (s *Server) ServeHTTP(w http.ResponseWriter, r *http.Request) {
 		writeError(w, http.StatusUnauthorized, pullErrUnauthorized, "request is not authorized")
 		return
 	}
+	verifhook.Point("pull.after-authorize")
 
 	cleanPath := path.Clean(r.URL.Path)
 	op := path.Base(cleanPath)
